@@ -305,5 +305,56 @@ func runC19(c *core.Ctx, r *core.Result) {
 		}
 	}
 	r.Count("hint_chain_max_len", int64(maxLen))
+	// long chains with few recurrences: n distinct texts (n up to maxDistinct),
+	// then a recurrence of the j-th one, then nothing / one new text / one new
+	// text and a second recurrence (of the first, the same, the last old or the
+	// new text). Every list size at which an implementation could switch its
+	// de-duplication strategy is crossed, with the recurring text at every
+	// position of the list built so far.
+	maxDistinct := 11
+	if c.Thorough() {
+		maxDistinct = 16
+	}
+	var longChains int64
+	for n := 1; n <= maxDistinct; n++ {
+		for j := 0; j < n; j++ {
+			tails := [][]int{{}, {n}, {n, 0}, {n, j}, {n, n - 1}, {n, n}}
+			for ti, tail := range tails {
+				idx++
+				if !c.Mine(idx) {
+					continue
+				}
+				if c.Expired() {
+					r.Cap("soft deadline in long hint chains")
+					return
+				}
+				seq := make([]int, 0, n+3)
+				for i := 0; i < n; i++ {
+					seq = append(seq, i)
+				}
+				seq = append(seq, j)
+				seq = append(seq, tail...)
+				names := []string{"GoNew"}
+				for i := range seq {
+					if (n+j+ti+i)%7 == 6 {
+						names = append(names, "WithDetail")
+					}
+					names = append(names, "WithHint")
+				}
+				t := tm.T(names...)
+				k := 0
+				for cur := t; cur != nil; cur = cur.Kid {
+					if cur.Op.Name == "WithHint" {
+						cur.S[0] = fmt.Sprintf("t%d", seq[len(seq)-1-k])
+						k++
+					}
+				}
+				longChains++
+				visit(t)
+			}
+		}
+	}
+	r.Count("hint_long_chain_max_distinct", int64(maxDistinct))
+	r.Count("hint_long_chains", longChains)
 	eachTerm(c, r, p, visit)
 }
